@@ -3,6 +3,8 @@
 Everything a registered check needs lives under /verif (build output in /verif/build,
 gitignored).  Nothing here reads or writes /tmp.
 """
+import fcntl
+import functools
 import hashlib
 import json
 import os
@@ -54,6 +56,23 @@ def sh(cmd, timeout=1800, cwd=None, env=None, input=None, check=False):
 
 # --------------------------------------------------------------------------- Coq
 
+
+def locked(lockname):
+    """Builds are shared by all checks; two checks started together must not run the same build step at once."""
+    def deco(fn):
+        @functools.wraps(fn)
+        def wrapper(*a, **kw):
+            d = os.path.join(BUILD, "locks")
+            os.makedirs(d, exist_ok=True)
+            with open(os.path.join(d, lockname + ".lock"), "w") as lf:
+                fcntl.flock(lf, fcntl.LOCK_EX)
+                try:
+                    return fn(*a, **kw)
+                finally:
+                    fcntl.flock(lf, fcntl.LOCK_UN)
+        return wrapper
+    return deco
+
 def coq_makefile():
     mk = os.path.join(COQ, "Makefile")
     cp = os.path.join(COQ, "_CoqProject")
@@ -70,6 +89,7 @@ def coq_project_files():
     return out
 
 
+@locked("coq")
 def coq_make(targets, timeout=3000):
     """Full .vo build (never -vos) of the given targets, keep going on failure."""
     coq_makefile()
@@ -151,6 +171,7 @@ def coq_properties(pid, extra_deps=()):
 
 # --------------------------------------------------------------------------- /repo builds
 
+@locked("repo")
 def repo_build(kind="hooked", targets=("bloch", "bloch_update", "bloch_http")):
     """(Re)build /repo's current working tree out of tree.  kind: hooked | asan | tsan | plain (no hooks)."""
     bdir = os.path.join(BUILD, kind)
@@ -181,6 +202,7 @@ def repo_build(kind="hooked", targets=("bloch", "bloch_update", "bloch_http")):
     return bdir
 
 
+@locked("cpp")
 def cpp_driver(name, kind="hooked", extra_flags="", libs=("bloch_runtime", "bloch_compiler"), deps=(), link_flags=""):
     """Compile harness/cpp/<name>.cpp against the repo build of the given kind."""
     bdir = os.path.join(BUILD, kind)
@@ -206,6 +228,7 @@ def cpp_driver(name, kind="hooked", extra_flags="", libs=("bloch_runtime", "bloc
 
 # --------------------------------------------------------------------------- OCaml extraction
 
+@locked("ocaml")
 def ocaml_engine(name, driver=None):
     """Extract coq/extract/Extract_<name>.v -> build/ml/<name>/, compile with driver
     extract/driver_<name>.ml.  Rebuilt when any .vo or the driver is newer."""
